@@ -23,7 +23,7 @@ import copy
 import io
 import numpy
 
-from collada.common import DaeObject, E, tag
+from collada.common import DaeObject, E, tag, getReference
 from collada.common import DaeIncompleteError, DaeBrokenRefError, \
     DaeMalformedError, DaeUnsupportedError
 from collada.util import falmostEqual
@@ -885,10 +885,7 @@ class Material(DaeObject):
         effnode = node.find(collada.tag('instance_effect'))
         if effnode is None:
             raise DaeIncompleteError('No effect inside material')
-        effectid = effnode.get('url')
-
-        if not effectid.startswith('#'):
-            raise DaeMalformedError('Corrupted effect reference in material %s' % effectid)
+        effectid = '#' + getReference(effnode, 'url')
 
         effect = collada.effects.get(effectid[1:])
         if not effect:
